@@ -54,4 +54,40 @@ theorem fadd_fneg (a b : Nat) : fadd a (fneg b) = fsub a b := by
 
 theorem P_pos : 0 < P := by decide
 
+/-! Combinator view of the runners: lets `simp` push the remaining operations into the branches of
+    an operation's guard (`if … then error else ok …`) instead of getting stuck on a `match`. -/
+
+theorem step_eq_map (vm : Vm) (op : Op) :
+    vm.step op = (vm.stepCore op).map (fun r => { r with clk := vm.clk, trace := vm.trace }) := by
+  unfold Vm.step
+  cases vm.stepCore op <;> rfl
+
+theorem runOps_nil (vm : Vm) : runOps [] vm = .ok vm := rfl
+
+theorem runOps_cons (op : Op) (rest : List Op) (vm : Vm) :
+    runOps (op :: rest) vm = (vm.step op).bind (runOps rest) := by
+  simp only [runOps]
+  cases vm.step op <;> rfl
+
+theorem stackRun_eq (ops : List Op) (vm : Vm) :
+    stackRun ops vm = (runOps ops vm).map (fun v => v.stack) := by
+  unfold stackRun
+  cases runOps ops vm <;> rfl
+
+theorem Except.map_ok' {ε α β : Type} (f : α → β) (a : α) :
+    Except.map f (Except.ok a : Except ε α) = Except.ok (f a) := rfl
+theorem Except.map_error' {ε α β : Type} (f : α → β) (e : ε) :
+    Except.map f (Except.error e : Except ε α) = Except.error e := rfl
+theorem Except.bind_ok' {ε α β : Type} (f : α → Except ε β) (a : α) :
+    Except.bind (Except.ok a : Except ε α) f = f a := rfl
+theorem Except.bind_error' {ε α β : Type} (f : α → Except ε β) (e : ε) :
+    Except.bind (Except.error e : Except ε α) f = Except.error e := rfl
+theorem Except.map_ite {ε α β : Type} (f : α → β) (c : Prop) [Decidable c] (a b : Except ε α) :
+    Except.map f (if c then a else b) = if c then Except.map f a else Except.map f b := by
+  split <;> rfl
+theorem Except.bind_ite {ε α β : Type} (f : α → Except ε β) (c : Prop) [Decidable c]
+    (a b : Except ε α) :
+    Except.bind (if c then a else b) f = if c then Except.bind a f else Except.bind b f := by
+  split <;> rfl
+
 end Miden
